@@ -33,7 +33,8 @@ CHECKS = {
              "(FetchOpenChannels+NewLightningChannel) after EVERY API call of every replayed behaviour (so every call "
              "boundary is a crash point, for either side) and its full projection must equal the spec's Restored(disk); "
              "the reload must not fail, the reloaded local commitment must be fully signed (script engine against the "
-             "funding output), and behaviours continue after real reconnects.",
+             "funding output), behaviours continue after real reconnects, and status updates issued through a STALE handle "
+             "(what the chain arbitrator/watcher hold) must leave the commitment state on disk untouched.",
         note="bolt kvdb only (etcd/postgres not available offline); each channeldb write is one atomic kvdb transaction "
              "and each API call makes at most one, so call boundaries are the crash points; forwarding packages are "
              "covered by the C08 harness, not here",
@@ -173,6 +174,25 @@ CHECKS = {
              "reported as KNOWN-FINDING",
         technique="TLA+ spec + TLC model checking + deterministic replay of thread interleavings/crashes/write failures on the real circuit map + TLC trace validation",
         design_ref="DESIGN.md 4.3, 5/C07"),
+    "C08": dict(
+        category="model_checking",
+        text="OBSERVED EXECUTIONS. spec/Forwarding: ForwardingRules writes the property over BOLT-2 stages of each payment's HTLC on "
+             "the incoming and outgoing channel (SettleOnlyWithDownstreamPreimage, FailOnlyAfterDownstreamGone, OneAnswer, "
+             "ForwardOnlyLockedIn, ForwardOnce, NothingDangling, Conservation); Forwarding models the forwarding node's "
+             "mechanism (forwarding package filters, circuit commit, mailboxes, pipelined settle, fail from the package, "
+             "link/network restarts, message loss) and TLC checks the rules for all orders of 1-2 payments of every kind in "
+             "both directions under restarts. On the code: TLC-generated fault plans (2-6 concurrent payments around dust "
+             "and policy limits, valid/unknown/hold/underpaid, restarts and disconnects by tap count) and free-running plans "
+             "run on the real three-hop network; every wire message of all three servers is tapped with a global sequence "
+             "number; ForwardingTrace replays the stamped sequence through the BOLT-2 bookkeeping of all four channel ends, "
+             "checks the causal rules per payment and the recorded quiescent state (balances to the msat, active HTLCs, "
+             "circuits, payment results, invoice states).",
+        note="the goroutine interleaving inside a node is the Go runtime's (thorough tier under -race), not enumerated - the "
+             "weakest binding in this design; both links of a channel restart together; no fee updates/on-chain resolution/MPP; "
+             "defects F17, F21, F22 found by this check were repaired (1abb1ae, ee7b02b, 1a31165) - F17/F21 have directed "
+             "regression plans in every batch, F22's window cannot be forced from the three-hop harness (plain Go repro)",
+        technique="TLA+ spec + TLC model checking + TLC trace validation of tapped wire traces of the real three-hop network under generated fault plans",
+        design_ref="DESIGN.md 4.4, 5/C08"),
     "C09": dict(
         category="model_checking",
         text="spec/ForwardPolicy states every rule of the property as a predicate over ideal integers (Violated = set of violated "
